@@ -3,6 +3,7 @@ package checks
 import (
 	"fmt"
 	"go/token"
+	"go/types"
 	"math/big"
 
 	"golang.org/x/tools/go/packages"
@@ -167,5 +168,94 @@ func checkC05(c *core.Ctx) error {
 			c.Check(nGood == 1, variant.rule, cons, "exactly one success path "+tag, fd.Pos(), fmt.Sprintf("%d success paths", nGood))
 		}
 	}
+	checkCholeskyRun(c, d)
 	return nil
+}
+
+// checkCholeskyRun (C05.R3): cholesky.Run with its option dispatch (plain, LDL{true}) and with in-situ buffers that hold
+// the factors of an earlier call (stale lower triangle of L, stale diagonal of D): the returned factors multiply back to
+// the input and contain nothing of the earlier call.
+func checkCholeskyRun(c *core.Ctx, d *declIndex) {
+	c.Rule("C05.R3", "cholesky.Run (plain and LDL, fresh and reused in-situ buffers) returns factors that multiply back to the input and do not depend on the buffers' previous contents", 4)
+	p := c.Pkg("algorithm/cholesky")
+	cons := "algorithm/cholesky.Run"
+	fd := findFuncDecl(p, "Run")
+	tIn, tLDL := namedType(p, "InSitu"), namedType(p, "LDL")
+	if fd == nil || tIn == nil || tLDL == nil {
+		c.Unknown("C05.R3", cons, "function and option types found", token.NoPos, "not found")
+		return
+	}
+	const n = 2
+	A := func(i, j int) *sym.Term {
+		if j > i {
+			i, j = j, i
+		}
+		return symf("a_%d_%d", i, j)
+	}
+	for _, ldl := range []bool{false, true} {
+		for _, reuse := range []bool{false, true} {
+			tag := fmt.Sprintf("[ldl=%v, reused buffers=%v]", ldl, reuse)
+			args := &vn.ListVal{}
+			if ldl {
+				args.Elems = append(args.Elems, &vn.StructVal{T: tLDL, Fields: map[string]vn.Value{"Value": &vn.BoolVal{Known: true, V: true}}})
+			}
+			if reuse {
+				prevL := vn.NewLocalMat(n, n, func(i, j int) *sym.Term {
+					if j > i {
+						return sym.Zero()
+					}
+					return symf("stale_l_%d_%d", i, j)
+				})
+				prevD := vn.NewLocalMat(n, n, func(i, j int) *sym.Term {
+					if i != j {
+						return sym.Zero()
+					}
+					return symf("stale_d_%d", i)
+				})
+				args.Elems = append(args.Elems, &vn.StructVal{T: types.NewPointer(tIn), Fields: map[string]vn.Value{"L": prevL, "D": prevD,
+					"S": &vn.Loc{Name: "s", Val: symf("stale_s"), Consistent: true}, "T": &vn.Loc{Name: "t", Val: symf("stale_t"), Consistent: true}}})
+			}
+			cfg := vn.Config{Pkg: p, TypeName: "Real64", Spec: distSpec, InlineOps: inlineOps, Decl: d.find, ParamNames: true, MaxDepth: 10, UnrollConst: true, FiniteSyms: true,
+				ParamFresh: true, ParamList: []vn.Value{vn.NewLocalMat(n, n, A), args}}
+			paths, und := vn.Run(cfg, fd)
+			if und != nil {
+				c.Unknown("C05.R3", cons, "interpreted "+tag, und.Pos, "Run left the interpreter's idiom set: "+und.Msg)
+				continue
+			}
+			nGood := 0
+			for _, pa := range paths {
+				ret, _ := pa.Ret.(vn.Tuple)
+				if len(ret) != 3 || pa.Panic {
+					continue
+				}
+				if _, isErr := ret[2].(*vn.ErrVal); isErr {
+					continue
+				}
+				L, _ := ret[0].(*vn.LocalMat)
+				D, _ := ret[1].(*vn.LocalMat)
+				if L == nil || (ldl && D == nil) {
+					continue
+				}
+				nGood++
+				bad := ""
+				for i := 0; i < n && bad == ""; i++ {
+					for j := 0; j < n && bad == ""; j++ {
+						s := sym.Zero()
+						for k := 0; k < n; k++ {
+							t := sym.Mul(L.Cell(i, k), L.Cell(j, k))
+							if ldl {
+								t = sym.Mul(t, D.Cell(k, k))
+							}
+							s = sym.Add(s, t)
+						}
+						if !staleFree(s) || !(sym.Equal(s, A(i, j)) || sym.Equal(foldRoots(s), A(i, j))) {
+							bad = fmt.Sprintf("the product of the factors has entry (%d,%d) = %s, the input has %s", i, j, shortTerm(foldRoots(s)), A(i, j))
+						}
+					}
+				}
+				c.Check(bad == "", "C05.R3", cons, "factors multiply back to the input "+tag, fd.Pos(), bad)
+			}
+			c.Check(nGood == 1, "C05.R3", cons, "exactly one success path "+tag, fd.Pos(), fmt.Sprintf("%d success paths", nGood))
+		}
+	}
 }
